@@ -1281,7 +1281,8 @@ fn empty_tag_suffix(doc: &str) -> bool {
             continue;
         }
         let mut j = i + 1;
-        while j < b.len() && (b[j].is_ascii_alphanumeric() || b[j] == b'-') {
+        // (the scanner's word characters: letters, digits, `-` and `_`)
+        while j < b.len() && (b[j].is_ascii_alphanumeric() || b[j] == b'-' || b[j] == b'_') {
             j += 1;
         }
         if j < b.len() && b[j] == b'!' {
